@@ -604,6 +604,57 @@ C17(e, pre, post) ==
               "C17: contract code or storage after the transaction differs from the reference EVM")
   ELSE {}
 
+(* The bridge protocol on the recorded operation stream of the state-DB      *)
+(* wrapper (EvmOp hook), following EvmBridge.tla: an account is synced in    *)
+(* with tag = id of the last snapshot + 1; RevertToSnapshot(id) forgets      *)
+(* exactly the accounts whose tag exceeds id; the interpreter touches        *)
+(* balances and nonces of synced accounts only; Finish writes back exactly   *)
+(* the synced accounts, and with their sync-in values when the transaction   *)
+(* was reverted to its first snapshot.                                       *)
+
+BridgeInit == [synced |-> [x \in {} |-> 0], vals |-> [x \in {} |-> 0], lastSnap |-> -1, top |-> -1, pending |-> {}, wb |-> {},
+               failed |-> FALSE, bad |-> {}]
+
+Touching == {"SubBalance", "AddBalance", "SetNonce", "GetBalance", "GetNonce", "CreateAccount", "Suicide"}
+
+BridgeStep(st, o) ==
+  LET st0 == IF o.op # "UnSync" /\ st.pending # {}
+               THEN [st EXCEPT !.bad = @ \cup {"C17: a revert did not forget every account that was synced after the snapshot"}, !.pending = {}]
+               ELSE st
+  IN
+  CASE o.op = "Snapshot" ->
+         [st0 EXCEPT !.lastSnap = o.n,
+                     !.bad = @ \cup (IF o.n <= st0.lastSnap /\ st0.lastSnap >= 0 /\ st0.top >= 0 THEN {"C17: snapshot ids do not increase"} ELSE {})]
+    [] o.op = "Prepare" -> [st0 EXCEPT !.lastSnap = o.n, !.top = o.n]
+    [] o.op = "SyncIn" ->
+         [st0 EXCEPT !.synced = [x \in DOMAIN @ \cup {o.a} |-> IF x = o.a THEN o.tag ELSE @[x]],
+                     !.vals = [x \in DOMAIN @ \cup {o.a} |-> IF x = o.a THEN [n |-> o.n, amt |-> o.amt] ELSE @[x]],
+                     !.bad = @ \cup (IF o.a \in DOMAIN st0.synced THEN {"C17: an account was synced in twice"} ELSE {})
+                               \cup (IF o.tag # st0.lastSnap + 1 THEN {"C17: a sync-in is not tagged with the snapshot after the last one taken"} ELSE {})]
+    [] o.op \in Touching ->
+         [st0 EXCEPT !.bad = @ \cup (IF o.a \notin DOMAIN st0.synced /\ ~(o.op = "AddBalance" /\ o.amt = <<>>)
+                                       THEN {"C17: the interpreter touched balance or nonce of an account that is not synced with the native ledger (stale copy)"} ELSE {})]
+    [] o.op = "RevertToSnapshot" ->
+         [st0 EXCEPT !.pending = {a \in DOMAIN st0.synced : st0.synced[a] > o.n},
+                     !.failed = @ \/ o.n = st0.top]
+    [] o.op = "UnSync" ->
+         [st0 EXCEPT !.synced = [x \in DOMAIN @ \ {o.a} |-> @[x]],
+                     !.pending = @ \ {o.a},
+                     !.bad = @ \cup (IF o.a \notin st0.pending THEN {"C17: a revert forgot an account that was synced before the snapshot"} ELSE {})]
+    [] o.op = "WriteBack" ->
+         [st0 EXCEPT !.wb = @ \cup {o.a},
+                     !.bad = @ \cup (IF o.a \notin DOMAIN st0.synced THEN {"C17: an account that was not synced was written back to the native ledger"} ELSE {})
+                               \cup (IF st0.failed /\ o.a \in DOMAIN st0.vals /\ (st0.vals[o.a].n # o.n \/ st0.vals[o.a].amt # o.amt)
+                                       THEN {"C17: a failed transaction wrote a changed balance or nonce back to the native ledger"} ELSE {})]
+    [] o.op = "Finish" ->
+         [st0 EXCEPT !.bad = @ \cup (IF st0.wb # DOMAIN st0.synced THEN {"C17: Finish did not write back exactly the synced accounts"} ELSE {})]
+    [] OTHER -> st0
+
+RECURSIVE BridgeFold(_, _, _)
+BridgeFold(ops, i, st) == IF i > Len(ops) THEN st ELSE BridgeFold(ops, i + 1, BridgeStep(st, ops[i]))
+
+C17Bridge(e) == IF e.ev = "DeliverTx" /\ "bridge" \in DOMAIN e THEN BridgeFold(e.bridge, 1, BridgeInit).bad ELSE {}
+
 ---------------------------------------------------------------------------
 (* C07 - restart (single-replica part: the restarted process reports the    *)
 (* last commit and has rebuilt every piece of state that influences         *)
